@@ -20,6 +20,7 @@ import (
 	"net/http/httptest"
 	"os"
 	"strconv"
+	"strings"
 	"testing"
 	"time"
 
@@ -40,6 +41,8 @@ func TestVerifC17Api(t *testing.T) {
 	setup := []string{"cfg", "+A", "A: NICK a", "A: USER a 0 * :A"}
 	logs := []c02Log{
 		c02MakeLog("create-delete", [][]string{setup, {"A: JOIN #c", "+B", "B: NICK b", "B: USER b 0 * :B", "B: JOIN #c"}, {"-A", "+C", "C: NICK c"}, {"B: QUIT :bye", "+D"}}, []int{0, 0, 0, 0}, []int{2, 0, 1, 3}),
+		// the quit message of a DELETE is chosen by the client; bridges relay the words of the server they replace
+		c02MakeLog("client-quit-messages", [][]string{setup, {"+B", "B: NICK b", "A: PING x", "-A Ping timeout: 180 seconds", "B: PING y", "-B Ping timeout (30m0s)", "+C", "-C "}}, []int{0, 0}, []int{0, 0}),
 		c02MakeLog("sessions-only", [][]string{{"+A", "+B", "-A", "+C", "-C", "+D"}}, []int{0}, []int{0}),
 	}
 	type job struct {
@@ -284,6 +287,78 @@ func TestVerifC10Follower(t *testing.T) {
 			n.Stop()
 			os.RemoveAll(n.dir)
 		}
+	}
+	b, _ := json.Marshal(res)
+	if o := os.Getenv("VERIF_OUT"); o != "" {
+		os.WriteFile(o, b, 0644)
+	} else {
+		fmt.Println(string(b))
+	}
+}
+
+// TestVerifC17Leader (C17): the end of a session through the real DELETE handler of a leader.  The quit
+// message is chosen by the client: whatever it says, and whatever the session did just before, a DELETE that
+// was answered with success ends the session -- afterwards the state machine does not know it and no handler
+// serves it.  Grid: quit messages x what the session did before.
+func TestVerifC17Leader(t *testing.T) {
+	shard, _ := strconv.Atoi(os.Getenv("VERIF_SHARD"))
+	res := &vSeqResult{EndStates: map[string]int{}}
+	sigs := map[string]*vViol{}
+	if shard == 0 {
+		*useProtobuf = true
+		n, err := vStartNode(t.TempDir()+"/leader", true)
+		if err != nil {
+			t.Fatal(err)
+		}
+		if r := n.setConfig(vCfgFast); r.Code != 200 {
+			res.HarnessErr = "HARNESS: config: " + r.Body
+		}
+		quits := []string{"bye", "", "Ping timeout: 180 seconds", "Ping timeout (30m0s)", "Ping timeout", "ping timeout: 1 seconds", "Read error: Connection reset by peer", "Killed (x (y))", "x :y", "Too many authentication failures", "Excess Flood"}
+		before := [][]string{{}, {"NICK v%d", "USER v 0 * :v"}, {"NICK v%d", "USER v 0 * :v", "PING x"}, {"NICK v%d", "USER v 0 * :v", "JOIN #c"}, {"NICK v%d", "USER v 0 * :v", "JOIN #c", "PRIVMSG #c :last words"}}
+		k := 0
+		for _, q := range quits {
+			for bi, lines := range before {
+				if res.HarnessErr != "" {
+					break
+				}
+				k++
+				s, r := n.createSession()
+				if r.Code != 200 {
+					res.HarnessErr = "HARNESS: create: " + r.Body
+					break
+				}
+				for li, l := range lines {
+					if strings.Contains(l, "%d") {
+						l = fmt.Sprintf(l, k)
+					}
+					if r := n.post(s, l, uint64(k*100+li+1)); r.Code != 200 {
+						res.HarnessErr = fmt.Sprintf("HARNESS: post %q: %d %s", l, r.Code, r.Body)
+					}
+				}
+				seq := []string{"c17leader", q, strconv.Itoa(bi)}
+				res.Sequences++
+				d := n.deleteSession(s, q)
+				res.Ops++
+				res.EndStates[fmt.Sprintf("DELETE -> %d", d.Code)]++
+				if d.Code != 200 {
+					// (a refused DELETE is not the subject here, the session stays)
+					continue
+				}
+				_, gerr := ircServer.GetSession(robust.Id{Id: s.Num})
+				p := n.post(s, "PING after", uint64(k*100+50))
+				res.Ops++
+				res.EndStates[fmt.Sprintf("after DELETE: POST -> %d, known to the state machine: %v", p.Code, gerr == nil)]++
+				if gerr == nil || p.Code == 200 {
+					res.report(sigs, "C17", "a session whose DELETE was answered with success lives on", fmt.Sprintf("quit message %q after %v: DELETE answered 200; GetSession error: %v; a later POST is answered %d", q, lines, gerr, p.Code), seq)
+					continue
+				}
+				if g := vGetStatus(n, s); g.Code == 200 {
+					res.report(sigs, "C17", "an ended session is served [GET messages]", fmt.Sprintf("quit message %q after %v", q, lines), seq)
+				}
+				res.Ops++
+			}
+		}
+		n.Stop()
 	}
 	b, _ := json.Marshal(res)
 	if o := os.Getenv("VERIF_OUT"); o != "" {
